@@ -49,6 +49,7 @@ type RequestContext struct {
 
 	savedBody any
 	outputs   map[string]any
+	hmdlReq   *heimdall.Request
 }
 
 func NewRequestContext(ctx context.Context, req *envoy_auth.CheckRequest) *RequestContext {
@@ -91,12 +92,18 @@ func canonicalizeHeaders(headers map[string]string) map[string]string {
 }
 
 func (r *RequestContext) Request() *heimdall.Request {
-	return &heimdall.Request{
-		RequestFunctions:  r,
-		Method:            r.reqMethod,
-		URL:               &heimdall.URL{URL: *r.reqURL},
-		ClientIPAddresses: r.ips,
+	// created once, as path captures are stored in it while the rule is looked up
+	// and have to be available while the rule is executed
+	if r.hmdlReq == nil {
+		r.hmdlReq = &heimdall.Request{
+			RequestFunctions:  r,
+			Method:            r.reqMethod,
+			URL:               &heimdall.URL{URL: *r.reqURL},
+			ClientIPAddresses: r.ips,
+		}
 	}
+
+	return r.hmdlReq
 }
 
 func (r *RequestContext) Headers() map[string]string { return r.reqHeaders }
